@@ -196,6 +196,67 @@ fn zero_width_witness(cx: &mut Case) -> CaseResult {
     Ok(())
 }
 
+/// Bit strings that are not a prefix of any jet code of the family although their parent is:
+/// the "holes" of the code tree.  A jet node carrying such a code must be rejected (the encoder
+/// never emits it, so accepting it would give one jet two encodings).
+fn jet_code_holes(codes: &JetCodes) -> Vec<Vec<bool>> {
+    let mut prefixes: std::collections::HashSet<Vec<bool>> = std::collections::HashSet::new();
+    for (c, _) in &codes.codes {
+        for i in 0..=c.len() {
+            prefixes.insert(c[..i].to_vec());
+        }
+    }
+    let mut holes: std::collections::BTreeSet<Vec<bool>> = std::collections::BTreeSet::new();
+    for (c, _) in &codes.codes {
+        for i in 0..c.len() {
+            let mut h = c[..i].to_vec();
+            h.push(!c[i]);
+            if !prefixes.contains(&h) {
+                holes.insert(h);
+            }
+        }
+    }
+    holes.into_iter().collect()
+}
+
+/// `comp (jet <hole>) unit`, hand-assembled: no decoder may accept it.
+fn jet_code_hole(cx: &mut Case) -> CaseResult {
+    cx.label("mode: jet code that the encoder never emits");
+    let family = if cx.src.bool() { Family::Core } else { Family::Elements };
+    let holes = with_codes(family, |codes| jet_code_holes(codes));
+    if holes.is_empty() {
+        cx.label("jet code tree has no holes");
+        return Ok(());
+    }
+    cx.nontrivial = true;
+    // eight holes per case, each alone and extended by every bit string of length 1 and 2 (a
+    // decoder that assigns a jet to an unassigned slot may do so one or two levels below it)
+    for k in 0..8 {
+        let h0 = holes[cx.src.below(holes.len())].clone();
+        for ext in [&[][..], &[false], &[true], &[false, false], &[false, true], &[true, false], &[true, true]] {
+            let mut h = h0.clone();
+            h.extend_from_slice(ext);
+            let mut bits = crate::model::bits::nat_encode(3);
+            bits.extend([true, true]);
+            bits.extend(h.iter().copied());
+            with_codes(family, |codes| {
+                wire::write_node(&mut bits, 1, &WNode::Unit, codes);
+                wire::write_node(&mut bits, 2, &WNode::Comp(0, 1), codes);
+            });
+            let prog = pack(&bits);
+            cx.fp.write(&prog);
+            if k == 0 && ext.is_empty() {
+                cx.set_sample(|| json!({"mode": "jet code hole", "family": format!("{:?}", family), "hole": crate::model::bits::bits_to_string(&h), "program": hex(&prog)}));
+            }
+            let r = decode_all(family, &prog, &[]).map_err(|e| format!("{} (jet node with the unassigned code {})", e, crate::model::bits::bits_to_string(&h)))?;
+            if r.redeem_ok || r.commit_ok || r.construct_ok {
+                return Err(format!("a decoder accepts a jet node with the code {} that no jet of the {:?} family encodes to: {}", crate::model::bits::bits_to_string(&h), family, hex(&prog)));
+            }
+        }
+    }
+    Ok(())
+}
+
 fn mutate_bytes(src: &mut Src, bytes: &mut Vec<u8>, other: &[u8]) -> &'static str {
     match src.below(7) {
         0 => {
@@ -435,9 +496,10 @@ fn directed_negative(src: &mut Src, v: &Valid, nodes: &[WNode], codes: &JetCodes
 }
 
 pub fn case(cx: &mut Case) -> CaseResult {
-    let mode = cx.src.weighted(&[30, 40, 40, 3]);
+    let mode = cx.src.weighted(&[30, 40, 40, 3, 3]);
     match mode {
         3 => zero_width_witness(cx),
+        4 => jet_code_hole(cx),
         0 => {
             cx.label("mode: raw bytes");
             let split = cx.src.u8() as usize;
